@@ -356,6 +356,10 @@ def gammas(run):
         for ocs in ((14,) if quick else (5, 14)):
             for nrow in ((5,) if quick else (4, 6)):
                 out.append(({"strategy": strat, "L": 1, "nrow": nrow, "header": "none", "other_col_size": ocs}, [1, 2], 4 if quick else 5))
+    # the consumed key column is not a leading column of the frame, widths unequal (heights must come from each cell's own column)
+    for strat in ("page_by", "subline"):
+        for nrow in ((5,) if quick else (4, 6)):
+            out.append(({"strategy": strat, "L": 1, "nrow": nrow, "header": "none", "key_not_first": True}, [1, 2], 4 if quick else 5))
     # float group keys with NaN: consecutive NaN rows are ONE group (the library compares the values' texts)
     for nrow in ((4,) if quick else (3, 4, 6)):
         out.append(({"strategy": "page_by", "L": 1, "nrow": nrow, "header": "none", "new_page": True, "pageby_row": "first_row", "nan_groups": True}, [1], 5))
